@@ -163,6 +163,13 @@ func ImportSnapshot(nhConfig config.NodeHostConfig,
 	if !ok {
 		return ErrIncompleteSnapshot
 	}
+	ok, err = hasExternalFiles(oldss, srcDir, fs)
+	if err != nil {
+		return err
+	}
+	if !ok {
+		return ErrIncompleteSnapshot
+	}
 	if err := checkMembers(oldss.Membership, memberNodes); err != nil {
 		return err
 	}
@@ -276,6 +283,26 @@ func isCompleteSnapshotImage(ssfp string,
 	// the payload checksum above is calculated from the per block checksums
 	// recorded in the file, it doesn't cover the data blocks themselves.
 	return validateSnapshotFile(ssfp, fs)
+}
+
+// hasExternalFiles checks whether the external files listed in the snapshot
+// record are all in the exported directory with the recorded sizes. An export
+// that lacks any of them is refused before any existing data is touched.
+func hasExternalFiles(ss pb.Snapshot, srcDir string, fs vfs.IFS) (bool, error) {
+	for _, file := range ss.Files {
+		fp := fs.PathJoin(srcDir, fs.PathBase(file.Filepath))
+		fi, err := fs.Stat(fp)
+		if err != nil {
+			if vfs.IsNotExist(err) {
+				return false, nil
+			}
+			return false, err
+		}
+		if fi.IsDir() || uint64(fi.Size()) != file.FileSize {
+			return false, nil
+		}
+	}
+	return true, nil
 }
 
 // validateSnapshotFile reads the specified snapshot file and checks each of
